@@ -21,6 +21,7 @@ EXPLANATION = (
     ' (function-of-its-operands) __eq/__lt/__le read only their two operands and write nothing: no verdict depends on earlier comparisons.'
     ' (PIPE lowering/emission - shared with C01) the operator written is the one the runtime applies to the evaluated operands: no arm of the lowering computes an operator itself for some operands.'
     ' (MAYBE-SHAPE, shared with C18) variants made by the library and variants the compiler writes have one shape, so `==` on enum values does not depend on who made them.'
+    ' (ARITH writes-only-its-own-locals) the arithmetic metamethods build their results in locals (they re-enter themselves on nested tuples).'
 )
 UNDECIDED = "the laws over all run-time values (NaN, functions inside composites), and metamethod dispatch rules of the target Lua version."
 
